@@ -6,9 +6,10 @@
 (*                                                                          *)
 (* Property statements (PS = page size, up(x) = x rounded up to a multiple  *)
 (* of PS, "zero frame" = vmm.ReservedZeroedFrame):                          *)
-(*  R1 sysReserve(size) reserves exactly up(size) bytes of kernel address   *)
-(*     space: it returns a page-aligned address, sets *reserved = true, the *)
-(*     region lies in space nothing reserved before (so regions of          *)
+(*  R1 sysReserve(size) reserves a region of up(size) bytes of kernel       *)
+(*     address space: it returns a page-aligned address, sets *reserved =   *)
+(*     true, the region lies inside the space this call took from vmm's     *)
+(*     reservation area, which nothing reserved before (so regions of       *)
 (*     successive calls, of sysAlloc and earlier reservations never         *)
 (*     overlap), it establishes no mapping and takes no frame; when the     *)
 (*     space cannot be reserved it panics and changes nothing.              *)
@@ -53,7 +54,8 @@
 (*  Dev_WrapZero   a size above 2^64 - PS: the page round-up wraps to 0 and *)
 (*     the hooks treat the request as size 0: sysReserve / sysAlloc succeed *)
 (*     with an empty region, sysMap maps nothing and reports success.       *)
-(*     Natural: such a request cannot be satisfied (panic / 0).             *)
+(*     Natural: such a request cannot be satisfied (panic / 0, no effect).  *)
+(*     TRUE tolerates the size-0 treatment; refusing is always accepted.    *)
 (*  Dev_MapStartUp sysMap rounds an unaligned addr UP and does not adjust   *)
 (*     the size: the page holding addr itself is NOT mapped and the range   *)
 (*     ends up(addr) - addr bytes later than addr + size: a sysMap of the   *)
@@ -102,7 +104,10 @@
 (* reservation cursor the boot left behind (kernel image, allocator tables) *)
 (* and at most 4096 pages at a time; stores go to arena pages.              *)
 (* Not constrained: which free frame pmm hands out; how many page tables a  *)
-(* mapping needs; the value of the PRNG stream.                             *)
+(* mapping needs; the value of the PRNG stream; WHERE vmm places a region   *)
+(* and how much more than up(size) it takes from the reservation area       *)
+(* (placement / alignment slack are vmm.EarlyReserveRegion's policy: the    *)
+(* region is taken from what the call returned and judged for membership).  *)
 (***************************************************************************)
 EXTENDS Integers, Sequences, FiniteSets
 CONSTANTS LimbBits, NLimbs, PB, VB,
@@ -195,8 +200,9 @@ MonRsv(s, e) ==
       wrap == r.c = 1
       R == IF wrap THEN W!Zero ELSE r.v
       mustFail == (wrap /\ ~Dev_WrapZero) \/ W!Lt(s.cur, R)
+      mayFail == wrap                   \* a wrapping size may also be refused (the natural reading is always tolerated)
       end == W!AddC(e.ret, R)
-  IN IF mustFail
+  IN IF mustFail \/ (mayFail /\ e.res = "panic")
      THEN [s |-> s, cs |-> NoCrash("R1", e) \o
             << <<"R1", e.res # "panic", <<"a reservation that cannot be satisfied must panic", e.res, e.size>> >> >> \o
             Quiet(s, e, "R1", "a failed sysReserve") \o Machine(s, e)]
@@ -206,7 +212,6 @@ MonRsv(s, e) ==
                <<"R1", e.res = "ok" /\ ~Aligned(e.ret), <<"the region is not page-aligned", e.ret>> >>,
                <<"R1", e.res = "ok" /\ ~(W!Le(e.cur, e.ret) /\ end.c = 0 /\ W!Le(end.v, s.cur)),
                        <<"the region is not inside the space this call reserved (overlap)", e.ret, s.cur, e.cur>> >>,
-               <<"R1", e.res = "ok" /\ W!Sub(s.cur, e.cur) # R, <<"the amount reserved is not the size rounded up to pages", s.cur, e.cur, e.size>> >>,
                <<"R1", e.chg # <<>>, <<"sysReserve changed a mapping", e.chg>> >>,
                <<"R1", e.nf # <<>>, <<"sysReserve took frames", e.nf>> >> >> \o Machine(s, e)]
 
@@ -245,7 +250,8 @@ MonMap(s, e) ==
                        <<"the result is neither (addr rounded up, *stat grown by the size rounded up) nor (0, *stat unchanged)", e.ret, e.s0, e.s1>> >>,
                <<"R2", e.res = "ok" /\ success /\ ~(failure /\ W!IsZero(Nw)) /\ ~covered, "sysMap reports success but not every page of the range is mapped">>,
                <<"R2", e.res = "ok" /\ success /\ ~failure /\ mustFail, "a size whose page round-up wraps cannot be mapped">>,
-               <<"R2", e.res = "ok" /\ failure /\ ~success /\ ~mustFail /\ e.free # 0, "sysMap failed although the allocator has frames left">>,
+               <<"R2", e.res = "ok" /\ failure /\ ~success /\ ~wrap /\ e.free # 0, "sysMap failed although the allocator has frames left">>,
+               <<"R2", e.res = "ok" /\ failure /\ ~success /\ wrap /\ (e.chg # <<>> \/ e.nf # <<>>), "a refused sysMap changed the machine">>,
                <<"R2", SetOf(e.nf) # SetOf(e.tabs), <<"sysMap took frames that are not page tables", e.nf, e.tabs>> >>,
                <<"R2", e.cur # s.cur, "sysMap moved the reservation cursor">> >> \o Machine(s, e)]
 
@@ -255,16 +261,22 @@ MonAlloc(s, e) ==
       wrap == rs.c = 1
       R == IF wrap THEN W!Zero ELSE rs.v
       noFit == (wrap /\ ~Dev_WrapZero) \/ W!Lt(s.cur, R)
-      S == W!Sub(s.cur, R)
-      Nw == W!ShiftR(R, PB)
-      sk == PKey(S)
+      \* the region is what the call returned: any page-aligned region of the rounded size inside the space this call
+      \* took from the reservation area is legal (placement is vmm's policy, not the hook's)
+      S == e.ret
+      end == W!AddC(S, R)
+      legal == Aligned(S) /\ W!Le(e.cur, S) /\ end.c = 0 /\ W!Le(end.v, s.cur)
+      ok == legal /\ e.s1 = W!Add(e.s0, R)
+      \* pages the call may touch: the region on success, the space it reserved when it failed half-way
+      Nw == IF ok THEN W!ShiftR(R, PB) ELSE W!ShiftR(W!Sub(s.cur, e.cur), PB)
+      sk == IF ok THEN PKey(S) ELSE PKey(e.cur)
       ck == Keys(e.chg)
       inr == {i \in 1..Len(e.chg) : InRange(Key(e.chg[i]), sk, Nw)}
       stray == (1..Len(e.chg)) \ inr
       wrong == {i \in inr : ~(CFl(e.chg[i]) = FlRW /\ CF(e.chg[i]) # s.zero)}
       dirty == {i \in inr : Present(CFl(e.chg[i])) /\ CZ(e.chg[i]) # 1}
       frames == {CF(e.chg[i]) : i \in 1..Len(e.chg)}
-      success == e.ret = S /\ e.s1 = W!Add(e.s0, R)
+      success == ok
       failure == W!IsZero(e.ret) /\ e.s1 = e.s0
       trivial == W!IsZero(S) /\ W!IsZero(R)
   IN IF noFit
@@ -275,19 +287,20 @@ MonAlloc(s, e) ==
      ELSE [s |-> Next(s, e), cs |-> NoCrash("R3", e) \o
             << <<"R3", e.res # "ok", <<"sysAlloc panicked", e.res>> >>,
                <<"R3", e.res = "ok" /\ ~success /\ ~failure,
-                       <<"the result is neither (region start, *stat grown by the size rounded up) nor (0, *stat unchanged)", e.ret, e.s0, e.s1>> >>,
+                       <<"the result is neither (a page-aligned region inside the space the call reserved, *stat grown by the size rounded up) nor (0, *stat unchanged)",
+                         e.ret, e.s0, e.s1, s.cur, e.cur>> >>,
                <<"R3", stray # {}, <<"sysAlloc changed a page outside its region", IF stray = {} THEN <<>> ELSE e.chg[Pick(stray)]>> >>,
                <<"R3", success /\ wrong # {}, <<"a page of the region is not mapped to a private frame with Present|NoExecute|RW",
                                      IF wrong = {} THEN <<>> ELSE e.chg[Pick(wrong)]>> >>,
                <<"R3", success /\ dirty # {}, <<"a page of the region does not read zero", IF dirty = {} THEN <<>> ELSE e.chg[Pick(dirty)]>> >>,
-               <<"R3", e.res = "ok" /\ success /\ ~trivial /\ e.cur # S, <<"the region is not what the call reserved", e.cur, e.ret>> >>,
                <<"R3", e.res = "ok" /\ success /\ ~trivial /\ ~(W!FitsNat(Nw) /\ Cardinality(ck) = W!ToNat(Nw)),
                        "sysAlloc reports success but not every page of the region is mapped">>,
                <<"R3", e.res = "ok" /\ success /\ ~trivial /\ SetOf(e.nf) # frames \cup SetOf(e.tabs),
                        <<"frames were taken that are neither pages of the region nor page tables", e.nf>> >>,
-               <<"R3", e.res = "ok" /\ failure /\ ~success /\ e.free # 0, "sysAlloc failed although space and frames are there">>,
-               <<"R3", e.res = "ok" /\ failure /\ ~success /\ Dev_AllocLeak /\ e.cur # S /\ e.cur # s.cur,
-                       <<"a failed sysAlloc left the cursor somewhere else", e.cur>> >>,
+               <<"R3", e.res = "ok" /\ failure /\ ~success /\ ~wrap /\ e.free # 0, "sysAlloc failed although space and frames are there">>,
+               <<"R3", e.res = "ok" /\ failure /\ ~success /\ wrap /\ (e.cur # s.cur \/ e.chg # <<>> \/ e.nf # <<>>), "a refused sysAlloc changed the machine">>,
+               <<"R3", e.res = "ok" /\ failure /\ ~success /\ Dev_AllocLeak /\ ~W!Le(e.cur, s.cur),
+                       <<"a failed sysAlloc moved the cursor upwards", e.cur>> >>,
                <<"R3", e.res = "ok" /\ failure /\ ~success /\ ~Dev_AllocLeak /\ (e.cur # s.cur \/ e.chg # <<>> \/ e.nf # <<>>),
                        <<"a failed sysAlloc leaks: reservation, mapped pages or frames stay allocated", e.cur, Len(e.chg), e.nf>> >> >> \o Machine(s, e)]
 
